@@ -109,6 +109,8 @@ def classify(f):
         pairs = [p.split("->") for p in m.group(1).split(",")] if m else []
         return dict(clause="sizes-strictly-decrease", stall=bool(pairs) and all(a == b_ for a, b_ in pairs),
                     nullspace_cols_gt_block_size=blk["nullspace_cols"] > blk["block_size"])
+    if blk and "implementation crashed" in th and blk.get("diagnosis") == "empty-coarse-level":
+        return dict(crash="direct-solver-on-empty-coarse-level", nullspace_cols_gt_block_size=blk["nullspace_cols"] > blk["block_size"])
     return {}
 
 def run_block(ctx, cases_override=None):
@@ -125,31 +127,10 @@ def run_block(ctx, cases_override=None):
                      theorem="Extract_amgb.v / OCaml driver of the amgb group does not build: " + str(e)[-1500:])]
     return ab.run_cases(ctx, cases, model_exe)
 
-C23 = F(2.0 / 3)          # static_cast<scalar_type>(2.0/3) of smoothed_aggregation.hpp, scalar_type = vq::Q
-NEPS = 64                 # per-level eps_strong^2 values handed to the policy (more than any hierarchy has levels)
-
 def full_policy_tokens(c):
-    """the coarsening policy of Coarsen.coarsen_step for an amg_common.Case (block_size 1, no null space);
-    float parameters are converted with the C++ expressions of the code"""
+    """the coarsening policy of Coarsen.coarsen_step for an amg_common.Case (block_size 1, no null space)"""
     cp = c.cprm
-    eps = F(cp["eps_strong"])                       # already a float value
-    def eps2_list():
-        out = []; e = eps
-        for _ in range(NEPS):
-            out.append(gen.f32_mul(e, e)); e = gen.f32(e / 2)     # prm.aggr.eps_strong *= 0.5 (float)
-        return "%d %s" % (NEPS, " ".join(fmt_q(x) for x in out))
-    if c.coarsening == "aggregation":
-        return "%s 1 %s" % (fmt_q(gen.f32_mul(eps, eps)), c.scale())
-    if c.coarsening == "smoothed_aggregation":
-        relax = F(1) if cp["relax"] == "-" else ac.float32(F(cp["relax"]))
-        return "%s 1 %s %s" % (eps2_list(), fmt_q(relax), fmt_q(C23))
-    if c.coarsening == "smoothed_aggr_emin":
-        return "%s 1" % eps2_list()
-    if c.coarsening == "ruge_stuben":
-        et = ac.float32(F(1, 5)) if cp["eps_trunc"] == "-" else ac.float32(F(cp["eps_trunc"]))
-        dt = 1 if cp["do_trunc"] in ("-", "1") else 0
-        return "%s %s %d" % (fmt_q(eps), fmt_q(et), dt)
-    raise ValueError(c.coarsening)
+    return ab.policy_tokens(c.coarsening, cp["eps_strong"], cp["relax"], c.scale(), 1, cp["do_trunc"], cp["eps_trunc"])
 
 def run_full(ctx, cases, impl, model_exe):
     """hierarchies built ENTIRELY inside the model (coq/AmgFull.v amg_init_full: transfer operators from
@@ -166,7 +147,7 @@ def run_full(ctx, cases, impl, model_exe):
             if cmd[0] == "dump": sc.append("dump"); w.append(segs[i])
             elif cmd[0] == "rebuild": sc.append("rebuild " + vcheck.fmt_crs(c.n, c.n, cmd[1])); w.append(segs[i])
         cf = c.cfg
-        lines.append(" ".join([c.cid, "amgfull", c.coarsening, str(cf["coarse_enough"]), str(cf["direct_coarse"]), str(cf["max_levels"]),
+        lines.append(" ".join([c.cid, "amgfull", c.coarsening, "1", str(cf["coarse_enough"]), str(cf["direct_coarse"]), str(cf["max_levels"]),
                                full_policy_tokens(c), vcheck.fmt_crs(c.n, c.n, c.rows), str(len(sc)), " ".join(sc)]))
         want[c.cid] = w
     res = ctx["run_driver"](model_exe, lines, timeout=1500)
